@@ -88,4 +88,14 @@ theorem skel_storedSessionLoader_refreshSessionIfNeeded_ok : skel_storedSessionL
   "return s.validateSession(req.Context(), session)",
   "s.validateSession"] : List String) := rfl
 
+theorem skel_client_Del_ok : skel_client_Del = ([
+  "return c.Client.Del(ctx, key).Err()",
+  "c.Client.Del(ctx, key).Err",
+  "c.Client.Del"] : List String) := rfl
+
+theorem skel_clusterClient_Del_ok : skel_clusterClient_Del = ([
+  "return c.ClusterClient.Del(ctx, key).Err()",
+  "c.ClusterClient.Del(ctx, key).Err",
+  "c.ClusterClient.Del"] : List String) := rfl
+
 end O2P.Expect.C11
